@@ -216,6 +216,14 @@ func runC04Conc(r *mc.Report, e *Env, task int) {
 	d := &mc.DFS{Bound: bound, Deadline: e.Deadline}
 	var out string
 	d.Body = func(c *mc.Ctx) { out = c04ConcRun(r, sc, c) }
+	if freeRuns > 0 { // race-detector pass: no exploration, the bodies run freely
+		for i := 0; i < freeRuns; i++ {
+			mc.Replay(nil, d.Body)
+			r.Exec("free|" + sc.Name + "|" + out)
+		}
+		r.Count("free_running_executions", int64(freeRuns))
+		return
+	}
 	d.After = func(c *mc.Ctx) {
 		if c.Diverged != "" {
 			r.EngineError("schedule replay diverged in " + sc.Name + ": " + c.Diverged)
